@@ -42,6 +42,15 @@ def foreign(rng, ft, k=None):
     bpc = 512 * kw["spc"]
     files = [("first file.dat", b"FIRST   DAT", 0x20, a, bytes(rng.randrange(256) for _ in range(len(a) * bpc - 5))),
              (None, b"SECOND  BIN", 0x20, b, bytes(rng.randrange(256) for _ in range(max(1, len(b) * bpc - bpc // 2))))]
+    # a chain that leaves the range [first, last] and comes back, as long as that range: c -> c+5 -> c+1 -> c+3, with another file in c+2 and a
+    # bad-cluster mark in c+4 (C16-m7: "first .. last has the length of the chain, so it is contiguous")
+    taken = set(used) | set(fill)
+    run = next((c for c in range(3 if ft == 32 else 2, n - 5) if all(x not in taken for x in range(c, c + 6))), None)
+    if run is not None:
+        weave = [run, run + 5, run + 1, run + 3]
+        files.append((None, b"WEAVE   BIN", 0x20, weave, bytes(rng.randrange(256) for _ in range(4 * bpc))))
+        files.append((None, b"MIDDLE  BIN", 0x20, [run + 2], bytes(rng.randrange(256) for _ in range(bpc - 9))))
+        fill[run + 4] = bad
     kw.update(files=files, fatfill=fill, hi_bits=hi or None, label="FOREIGNVOL")
     img, info = fatspec.build(ft, **kw)
     # the reserved byte that holds the dirty flag in bit 0: its OTHER bits belong to other systems (NT: 0x02 = surface scan) and are part
@@ -123,7 +132,11 @@ def run(ctx):
                 continue
             # (b) a history; everything the history did not touch must be preserved
             ops = [["makedir", "/newdir"], ["open", "h", "/newdir/n.bin", "w"], ["write", "h", (b"N" * (v.bpc + 3)).hex()], ["hclose", "h"],
-                   ["create", "/third.txt"], ["remove", "/third.txt"], ["closefs"]]
+                   ["create", "/third.txt"], ["remove", "/third.txt"]]
+            wv = v.tree()[0].get("/WEAVE.BIN")
+            if wv is not None:      # overwritten in place, through its own chain only
+                ops += [["open", "w", "/WEAVE.BIN", "r+"], ["write", "w", (b"\x57" * wv[1]).hex()], ["hclose", "w"]]
+            ops += [["closefs"]]
             case2 = history.Case(label, img, ops, mount=dict(encoding="ibm437"), meta=meta)
             r2 = history.run_case(ctx, case2, oracles=("internal",), model=m)
             out2 = r2["impl"].dev.volume()
@@ -148,7 +161,10 @@ def run(ctx):
             t1, _ = v.tree()
             t2, _ = v2.tree()
             for p, t in t1.items():
-                if t2.get(p, (None,))[:3] != t[:3]:
+                if p == "/WEAVE.BIN":
+                    if t2.get(p, (None,))[:3] != ("f", t[1], b"\x57" * t[1]):
+                        problems.append("the file overwritten in place through its non-monotonic chain does not read back")
+                elif t2.get(p, (None,))[:3] != t[:3]:
                     problems.append(f"foreign file {p} changed")
             if v.ft == 32 and (v.fat_raw32(0) >> 28) != (v2.fat_raw32(0) >> 28):
                 problems.append("reserved bits of FAT[0] changed")
